@@ -731,11 +731,28 @@ ClientFinished(c) ==
           /\ \/ CtxDone(c) \/ CreadSeen \/ k.sendFailed
              \/ Cin(k.id).close # "" /\ k.recvd = Len(Cin(k.id).bodies)
 
-PendLegit(p) ==
+\* KNOWN FINDING D25 (C11; head-of-line blocking without flow control, like D23).  The caller of a stream is inside
+\* a Send / CloseSend, responses of that very stream wait unfetched (it will only receive once it has sent everything)
+\* and the client's read loop demonstrably does not read any more (envelopes for it sit in the transport): it waits
+\* behind those responses, the server's writer behind it, the server's read loop - which owes resets for late messages
+\* or simply more responses - behind the writer, and the caller's Send behind the server's read loop.  Nothing on the
+\* connection moves until that caller receives or gives up; no rule about "by now" can be judged at such a point.
+SenderHol(unreadC) ==
+  /\ unreadC > 0
+  /\ \E p \in pend : /\ p.op \in {"send", "close"} /\ p.c \in DOMAIN calls
+                     /\ LET k == calls[p.c] IN
+                        /\ k.kind # "unary" /\ k.opened = "ok" /\ ~CtxDone(p.c)
+                        /\ k.recvd < Len(Cin(k.id).bodies)
+\* stall: nothing can be expected to have happened "by now" (a stuck transport, a goroutine the scheduler holds at a gate,
+\* or the client's read loop stalled - by design - behind responses their caller has not fetched yet)
+PendLegit(p, stall) ==
   LET c == p.c
       k == calls[c]
       x == Cin(k.id) IN
-  \/ Stuck
+  \* (even then an operation whose own context is done returns: every blocking call of the client - a transport
+  \* write included - gives up with its context; only a goroutine the scheduler holds at a gate cannot)
+  \/ parked > 0
+  \/ stall /\ ~CtxDone(c)
   \/ /\ p.op = "unary"
      \* (a failing write side only matters to a request that is not on the wire yet)
      /\ ~CtxDone(c) /\ ("cwrite" \notin flt \/ k.id # "") /\ ~CreadSeen /\ (k.id = "" \/ x.n = 0)
@@ -758,7 +775,7 @@ HCauseSeen(h) == \/ hnds[h].rst
                  \/ SrvDownSeen
                  \/ hnds[h].dl >= 0 /\ T >= hnds[h].dl
 
-LiveLegit(v) ==
+LiveLegit(v, stall) ==
   LET h == v.h IN
   /\ h \in DOMAIN hnds
   \* (parked > 0: the scheduler holds some goroutine at a gate - what that goroutine would have
@@ -766,7 +783,7 @@ LiveLegit(v) ==
   /\ G("ctx", v.res = "live" => parked > 0 \/ ~HCauseSeen(h))       \* C07 / C10: cancelled with its cause
   /\ G("pend", v.in = "recv" => /\ v.res = "live"                   \* blocked calls unblock on the context
                                 /\ (parked > 0 \/ hnds[h].nrecv = Len(Sin(hnds[h].id).items))) \* and on data
-  /\ G("pend", v.in = "send" => Stuck)
+  /\ G("pend", v.in = "send" => stall)
   /\ G("pend", v.in = "ctxwait" => v.res = "live")
 
 Idle == /\ \A c \in DOMAIN calls : ClientFinished(c)
@@ -774,46 +791,47 @@ Idle == /\ \A c \in DOMAIN calls : ClientFinished(c)
         /\ preq = <<>>
 
 Quiesce(ngor, nsrv, unreadS, unreadC) ==
-  /\ \A p \in pend : p.c \in DOMAIN calls /\ G("pend", PendLegit(p))
-  /\ \A v \in live : LiveLegit(v)
+  LET stall == Stuck \/ (CliHol /\ unreadC > 0) IN
+  /\ \A p \in pend : p.c \in DOMAIN calls /\ G("pend", PendLegit(p, stall))
+  /\ \A v \in live : LiveLegit(v, stall)
   \* every well-formed request delivered to a live server started its handler (C01 "never none")
-  /\ G("robust", preq # <<>> => SrvDown \/ Stuck \/ NLiveUnary >= 8)
+  /\ G("robust", preq # <<>> => SrvDown \/ stall \/ NLiveUnary >= 8)
   \* a live server keeps reading what is deliverable, unless its worker pool is busy with live handlers or it
   \* waits (head of line, by design) for a live stream handler that is not reading (C12, C11); likewise the client
-  /\ G("robust", (unreadS > 0 /\ cfg.ncli = 1 /\ ~cfg.rawsrv) => SrvDown \/ Stuck \/ NLiveUnary >= 8
+  /\ G("robust", (unreadS > 0 /\ cfg.ncli = 1 /\ ~cfg.rawsrv) => SrvDown \/ stall \/ NLiveUnary >= 8
                       \/ \E v \in live : v.kind # "unary" /\ v.in # "recv")
-  /\ G("pend", (unreadC > 0 /\ cfg.ncli = 1 /\ ~cfg.rawcli) => CliDown \/ Stuck
+  /\ G("pend", (unreadC > 0 /\ cfg.ncli = 1 /\ ~cfg.rawcli) => CliDown \/ stall
                       \/ CliHol)
   \* every returned handler has its response / close on the wire (C06)
-  /\ G("wire", \A h \in DOMAIN hnds : hnds[h].ret /\ ~hnds[h].trW => SrvDown \/ Stuck \/ HCause(h))
+  /\ G("wire", \A h \in DOMAIN hnds : hnds[h].ret /\ ~hnds[h].trW => SrvDown \/ stall \/ HCause(h))
   \* bodies for unknown streams were answered with a reset (C12)
-  /\ G("robust", \A id \in DOMAIN sin : sin[id].must > 0 => SrvDown \/ Stuck)
+  /\ G("robust", \A id \in DOMAIN sin : sin[id].must > 0 => SrvDown \/ stall)
   \* a cancelled stream has sent its reset (C07)
   /\ G("ctx", \A c \in DOMAIN calls :
         (calls[c].kind # "unary" /\ calls[c].opened = "ok" /\ CtxDone(c) /\ phase = "run"
-         /\ Cin(calls[c].id).close = "" /\ ~Cin(calls[c].id).mayRst /\ ~CliDown /\ ~Stuck) => calls[c].rstW)
+         /\ Cin(calls[c].id).close = "" /\ ~Cin(calls[c].id).mayRst /\ ~CliDown /\ ~stall) => calls[c].rstW)
   \* Serve has returned if its connection ended and no scripted handler holds it (C10)
-  /\ G("serve", ((flt \cap {"swfail", "stop"} # {} \/ ("sread" \in flt /\ ~SrvHol)) /\ ~Stuck
+  /\ G("serve", ((flt \cap {"swfail", "stop"} # {} \/ ("sread" \in flt /\ ~SrvHol)) /\ ~stall
         /\ \A v \in live : v.kind = "unary" \/ v.in \notin {"idle", "sleep"}) => "serveret" \in flt)
   \* registries (C14)
   /\ G("reg", cregN >= 0 => cregN = Cardinality(creg))
-  /\ G("reg", ~Stuck => \A c \in DOMAIN calls : ClientFinished(c) /\ calls[c].id # "" => calls[c].id \notin creg)
-  /\ G("reg", ~Stuck => \A h \in DOMAIN hnds : hnds[h].ret /\ hnds[h].kind # "unary" /\ Get(hOf, hnds[h].id, 0) = h => hnds[h].id \notin sreg)
-  /\ G("reg", (Idle /\ ~Stuck) => creg = {} /\ sreg = {} /\ ((cfg.ncli = 1 /\ base >= 0) => ngor <= base))
+  /\ G("reg", ~stall => \A c \in DOMAIN calls : ClientFinished(c) /\ calls[c].id # "" => calls[c].id \notin creg)
+  /\ G("reg", ~stall => \A h \in DOMAIN hnds : hnds[h].ret /\ hnds[h].kind # "unary" /\ Get(hOf, hnds[h].id, 0) = h => hnds[h].id \notin sreg)
+  /\ G("reg", (Idle /\ ~stall) => creg = {} /\ sreg = {} /\ ((cfg.ncli = 1 /\ base >= 0) => ngor <= base))
   \* (topologies whose connections come into being with the first envelope: the idle level is learnt at the first idle point)
-  /\ base' = IF base < 0 /\ Idle /\ ~Stuck THEN ngor ELSE base
+  /\ base' = IF base < 0 /\ Idle /\ ~stall THEN ngor ELSE base
   \* once Serve has returned and the handlers have returned, no goroutine of that connection remains (C10),
   \* even if the transport was stuck: a blocked write returns when the connection context is done
   /\ G("serve", ("serveret" \in flt /\ cfg.ncli = 1 /\ live = {} /\ parked = 0) => nsrv = 0)
   \* when the caller's side of a stream is over on a healthy connection, the server's side does not
   \* sit in a blocking call for ever: it has been told (C14, C07)
-  /\ G("letgo", (~Stuck /\ ~CliDown /\ ~SrvDown) =>
+  /\ G("letgo", (~stall /\ ~CliDown /\ ~SrvDown) =>
         \A v \in live : (v.kind # "unary" /\ v.in \in {"recv", "ctxwait"} /\ v.h \in DOMAIN hnds) =>
            ~\E c \in DOMAIN calls : /\ calls[c].id = hnds[v.h].id /\ calls[c].kind # "unary"
                                     /\ ClientFinished(c) /\ Cin(calls[c].id).close = "" /\ ~calls[c].rstLost
                                     /\ (v.in = "ctxwait" \/ hnds[v.h].nrecv = Len(Sin(hnds[v.h].id).items)))
   \* after a quiescent point a finished stream is definitely unregistered
-  /\ sin' = [id \in DOMAIN sin |-> IF sin[id].st = "closing" /\ ~Stuck THEN [sin[id] EXCEPT !.st = "dead"] ELSE sin[id]]
+  /\ sin' = [id \in DOMAIN sin |-> IF sin[id].st = "closing" /\ ~stall THEN [sin[id] EXCEPT !.st = "dead"] ELSE sin[id]]
   /\ pend' = {} /\ live' = {} /\ cregN' = -1
   /\ UNCHANGED <<cfg, phase, calls, byId, hi, gaps, cw, nSR, sw, nCR, cin, preq, hnds, hOf,
                  flt, creg, sreg, parked>>
